@@ -176,8 +176,8 @@ def main():
 
 
 MANIFEST = {
-    "claimed": False,
-    "text": "",
-    "note": "",
-    "design_ref": "DESIGN.md 3 C29",
+    "claimed": True,
+    "text": 'Theorems (Coq, every configuration, token list, permit availability and every outcome of the request parser): a fixed-key or supported-parameters request on a new connection whose token is not configured is answered with exactly [Error(BadRequest); EndOfMessage], no cookie, connection closed with NotPermitted, permit not asked (C29_token_required, C29_rejection_shape, C29_served_only_with_token, C29_connection_without_token on byte streams); the connection is kept open iff the request is a pool request with a configured token that asked for keep-alive and a slot was available, the slot is asked for iff token and wish are present, and the response carries a keep-alive record iff the connection is kept (C29_kept_open_iff, an iff over ALL parser outcomes); a plain key-exchange request on a kept-open connection is answered bad-request and ends handle_longterm with Invalid (C29_no_plain_on_longterm, _stream). Tie: the real handle_connection/handle_longterm over an in-memory TLS session against a scripted client, all records received by the client (cookies decoded) and both results compared with the model.',
+    "note": "Trusted: Coq kernel+vm_compute; hand-written model coq/Model/NtsKe.v (handle_new, lt_step, longterm, serve) over the C30 parser model; TLS abstracted to the client's byte stream (sending side closed at the end) and an exporter oracle whose values the harness reads from the session; handshake/transport failures other than EOF outside the model; cookies compared after decoding with the key set (C26); the monitor uses the generator's knowledge of the first request; census of the token tests in Gen/ConstNts.v. Print Assumptions: closed under the global context.",
+    "design_ref": 'DESIGN.md 3 C29',
 }
